@@ -42,34 +42,47 @@ use super::{
     ParserInput,
 };
 
+/// Parse an optional leading minus sign. No other operator is a valid sign for a literal operand.
+fn parse_optional_minus<'a>(input: ParserInput<'a>) -> InternalParserResult<'a, bool> {
+    match super::split_first_token(input) {
+        Some((Token::Operator(Operator::Minus), remainder)) => Ok((remainder, true)),
+        _ => Ok((input, false)),
+    }
+}
+
+/// Parse an optionally negated integer literal that must fit in an `i64`.
+fn parse_signed_integer<'a>(input: ParserInput<'a>) -> InternalParserResult<'a, i64> {
+    let (remainder, (negative, magnitude)) =
+        tuple((parse_optional_minus, token!(Integer(v))))(input)?;
+    let value = if negative {
+        0i64.checked_sub_unsigned(magnitude)
+    } else {
+        i64::try_from(magnitude).ok()
+    };
+    match value {
+        Some(value) => Ok((remainder, value)),
+        None => Err(nom::Err::Failure(InternalParseError::from_kind(
+            input,
+            ParserErrorKind::UnsupportedPrecision,
+        ))),
+    }
+}
+
+/// Parse an optionally negated real literal.
+fn parse_signed_real<'a>(input: ParserInput<'a>) -> InternalParserResult<'a, f64> {
+    let (remainder, (negative, magnitude)) =
+        tuple((parse_optional_minus, token!(Float(v))))(input)?;
+    Ok((remainder, if negative { -magnitude } else { magnitude }))
+}
+
 /// Parse the operand of an arithmetic instruction, which may be a literal integer, literal real
 /// number, or memory reference.
 pub(crate) fn parse_arithmetic_operand<'a>(
     input: ParserInput<'a>,
 ) -> InternalParserResult<'a, ArithmeticOperand> {
     alt((
-        map(
-            tuple((opt(token!(Operator(o))), token!(Float(v)))),
-            |(op, v)| {
-                let sign = match op {
-                    None => 1f64,
-                    Some(Operator::Minus) => -1f64,
-                    _ => panic!("Implement this error"), // TODO
-                };
-                ArithmeticOperand::LiteralReal(sign * v)
-            },
-        ),
-        map(
-            tuple((opt(token!(Operator(o))), token!(Integer(v)))),
-            |(op, v)| {
-                let sign = match op {
-                    None => 1,
-                    Some(Operator::Minus) => -1,
-                    _ => panic!("Implement this error"), // TODO
-                };
-                ArithmeticOperand::LiteralInteger(sign * (v as i64))
-            },
-        ),
+        map(parse_signed_real, ArithmeticOperand::LiteralReal),
+        map(parse_signed_integer, ArithmeticOperand::LiteralInteger),
         map(parse_memory_reference, ArithmeticOperand::MemoryReference),
     ))(input)
 }
@@ -80,28 +93,8 @@ pub(crate) fn parse_comparison_operand<'a>(
     input: ParserInput<'a>,
 ) -> InternalParserResult<'a, ComparisonOperand> {
     alt((
-        map(
-            tuple((opt(token!(Operator(o))), token!(Float(v)))),
-            |(op, v)| {
-                let sign = match op {
-                    None => 1f64,
-                    Some(Operator::Minus) => -1f64,
-                    _ => panic!("Implement this error"), // TODO
-                };
-                ComparisonOperand::LiteralReal(sign * v)
-            },
-        ),
-        map(
-            tuple((opt(token!(Operator(o))), token!(Integer(v)))),
-            |(op, v)| {
-                let sign = match op {
-                    None => 1,
-                    Some(Operator::Minus) => -1,
-                    _ => panic!("Implement this error"), // TODO
-                };
-                ComparisonOperand::LiteralInteger(sign * (v as i64))
-            },
-        ),
+        map(parse_signed_real, ComparisonOperand::LiteralReal),
+        map(parse_signed_integer, ComparisonOperand::LiteralInteger),
         map(parse_memory_reference, ComparisonOperand::MemoryReference),
     ))(input)
 }
@@ -111,17 +104,7 @@ pub(crate) fn parse_binary_logic_operand<'a>(
     input: ParserInput<'a>,
 ) -> InternalParserResult<'a, BinaryOperand> {
     alt((
-        map(
-            tuple((opt(token!(Operator(o))), token!(Integer(v)))),
-            |(op, v)| {
-                let sign = match op {
-                    None => 1,
-                    Some(Operator::Minus) => -1,
-                    _ => panic!("Implement this error"), // TODO
-                };
-                BinaryOperand::LiteralInteger(sign * (v as i64))
-            },
-        ),
+        map(parse_signed_integer, BinaryOperand::LiteralInteger),
         map(parse_memory_reference, BinaryOperand::MemoryReference),
     ))(input)
 }
